@@ -349,7 +349,13 @@ def main(tier):
                         v = ev(st, a)
                         if v is not None and v != "raise" and v not in got and None not in got:
                             bad = (str(a), v)
-            if bad:
+            if any(not k._is_def for k in simp_kids) and real._is_def:
+                # an alternative that is 'unknown' (top, or a widened vector) makes the whole value unknown:
+                # a definite list of alternatives would exclude values the unknown one stands for
+                ck.report("C19:vec.simplify:lost-unknown", "vec(%s).simplify(widening=%s) [threshold %s] = %s is definite although an alternative is unknown" % (
+                    [str(k) for k in kids], widening, thr, real), "oracle", "Amoco.Merge.Props.vecSimplify_covers",
+                    case={"children": [str(k) for k in kids], "widening": widening, "threshold": thr}, real=str(real), model=mod)
+            elif bad:
                 ck.report("C19:vec.simplify:lost-alternative", "vec(%s).simplify(widening=%s) [threshold %s] = %s loses alternative %s" % (
                     [str(k) for k in kids], widening, thr, real, bad[0]), "oracle", "Amoco.Merge.Props.vecSimplify_covers",
                     case={"children": [str(k) for k in kids], "widening": widening, "threshold": thr}, real=str(real), model=mod)
